@@ -38,6 +38,11 @@ ALPHABET = [
     "(q7 => leak3 = q7)(3)", "(if true then (() => leak4 = 1) else (() => 2))()", "map([1], q8 => leak6 = q8)",
     "g2 = () => leak7 = 1\ng2()", "do {\n  loc1 = 2\n  return do {\n    return leak8 = loc1\n  }\n}",
     "{k: (() => leak9 = 5)()}", "b = (() => do {\n  return a = 3\n})()",
+    # functions that already have a name, re-bound inside do-blocks (the name is the self reference)
+    "t = do {\n  fact = n => if n < 2 then 1 else n * fact(n - 1)\n  return {f: fact}\n}", "t.f(3)",
+    "do {\n  g9 = t.f\n  return g9(3)\n}",
+    "mk = () => do {\n  fc = n => if n < 2 then 1 else n * fc(n - 1)\n  return fc\n}", "mk()(4)",
+    "do {\n  g8 = mk()\n  return g8(4)\n}", "do {\n  g7 = f\n  return 0\n}",
 ]
 TAIL = "[#n, inputs.n]"
 
@@ -110,6 +115,23 @@ def check_session_invariant(src, out, res, known):
                          {"name": nm, "before": seen_probe[k], "after": v, "after_statement": i})
                 if v.startswith("OK:") or k not in seen_probe:
                     seen_probe[k] = v if (v.startswith("OK:") or k not in seen_probe) else seen_probe[k]
+    # a statement that binds nothing and succeeded once must give the same result whenever it is
+    # evaluated again later in the session (every name it used is bound, hence immutable)
+    stmts = [x for x in re.split(r"\n(?=\S)", src) if not x.startswith("//")]
+    if len(stmts) == len(segs):
+        first_ok = {}
+        for i, (stx, seg) in enumerate(zip(stmts, segs)):
+            # statements containing an assignment anywhere are excluded (an inner assignment is checked
+            # against the whole scope chain, so it may start failing once an outer name appears: F32)
+            if re.search(r"(?<![=!<>.])=(?![=>])", stx) or stx.startswith("output"):
+                continue
+            r_ = strip_names(seg.partition(";ENV:")[0])
+            if stx in first_ok and first_ok[stx] != r_:
+                viol("the same expression statement gave a different result later in the session",
+                     {"statement": stx, "before": first_ok[stx], "after": r_, "after_statement": i})
+            if r_.startswith("OK:"):
+                first_ok.setdefault(stx, r_)
+            checks += 1
     if segs:
         last = segs[-1].partition(";ENV:")[0]
         if src.endswith(TAIL) and last != "OK:L[N4014000000000000,N4014000000000000]":
@@ -150,7 +172,7 @@ def main(argv):
     # ---------------- sessions: exhaustive over the alphabet (implementation only), model on a sample
     depth = 2 if tier == "quick" else 3
     sess = list(sessions_exhaustive(depth))
-    n_random = 400 if tier == "quick" else 6000
+    n_random = 400 if tier == "quick" else 120000
     for _ in range(n_random):
         k = 3 + rng.below(8)
         sess.append("\n".join(rng.choice(ALPHABET) for _ in range(k)) + "\n" + TAIL)
@@ -162,7 +184,7 @@ def main(argv):
         if len(res.violations) > 10:
             break
     # model vs implementation on the per-statement snapshots
-    n_model = 700 if tier == "quick" else 5000
+    n_model = 700 if tier == "quick" else 40000
     idx = list(range(len(sess)))
     if len(idx) > n_model:
         idx = sorted(rng.shuffle(idx)[:n_model])
@@ -171,7 +193,7 @@ def main(argv):
     agree = 0
     try:
         coq, _ = es.parse_to_coq(h, sub)
-        model = es.model_eval(coq, tag="c03s", fn="run_session false")
+        model = es.model_eval(coq, tag="c03s", fn="run_session_full false")
         for j, i in enumerate(idx):
             if model[j] is None or "UNMODELLED" in model[j]:
                 continue
@@ -191,7 +213,7 @@ def main(argv):
                               "model_compared": len(idx), "model_agree": agree, "mismatches": len(mism)}
 
     # ---------------- EVAL: general generated programs, model vs implementation
-    n_eval = 300 if tier == "quick" else 4000
+    n_eval = 300 if tier == "quick" else 40000
     g = Gen(rng)
     progs = ["\n".join(g.program(2 + rng.below(8))) for _ in range(n_eval)]
     try:
